@@ -285,3 +285,26 @@ Proof.
     + unfold to_array in H. destruct v; cbn [arr_is] in H; cbn [vgroup pgroup]; auto; discriminate H.
     + unfold to_dict in H. destruct v; cbn [vgroup pgroup]; auto; discriminate H.
 Qed.
+
+(* ---- no_data_loss: extra tuple items and unknown keys are rejected ---- *)
+Lemma ndl_tuple_excess_rejected tr o depth args vals s :
+  o_no_data_loss o = true -> o_collect_errors o = false ->
+  (List.length args < List.length vals)%nat ->
+  exists s' e, parse_tuple_args tr o depth args (PTuple vals) s = (s', Raise e) /\ is_parse_err e = true.
+Proof.
+  intros Hndl Hco Hlt. unfold parse_tuple_args.
+  apply Nat.ltb_lt in Hlt. rewrite Hlt, Hndl, orb_true_r. cbn [andb].
+  destruct (skipn (List.length args) vals) as [|x r] eqn:Esk.
+  { exfalso. apply Nat.ltb_lt in Hlt. pose proof (skipn_length (List.length args) vals) as Hl. rewrite Esk in Hl.
+    cbn [List.length] in Hl. lia. }
+  cbn [tuple_exceed]. unfold mbind at 1. unfold mbind at 1. unfold handle_error. rewrite Hco. cbn [negb orb].
+  eexists. eexists. split; reflexivity.
+Qed.
+
+Lemma unknown_key_rejected C o key v s :
+  o_addition o = Some false -> o_collect_errors o = false -> str_in key (c_exclude_vars C) = false ->
+  exists s' e, parse_addition C o key v s = (s', Raise e) /\ is_parse_err e = true.
+Proof.
+  intros Ha Hco Hex. unfold parse_addition. rewrite Hex, Ha. unfold mbind, handle_error. rewrite Hco. cbn [negb orb].
+  eexists. eexists. split; reflexivity.
+Qed.
